@@ -49,6 +49,10 @@ type Config struct {
 	URLSummary  bool
 	OnCall      func(in *Interp, st *State, name string, args []Value)
 	Intercept   map[string]Model
+	Params      map[string]int // harness parameters read with verifParam
+	// Summaries replace calls of pure functions by a term; each summary must
+	// have been validated against the function's body (see checks.proveSummary).
+	Summaries map[string]func(args []Value) Value
 }
 
 type Model func(in *Interp, st *State, call *ssa.CallCommon, args []Value) []Alt
